@@ -545,13 +545,29 @@ fn spawn_worker(
         .env("NO_COLOR", "1")
         .stdin(Stdio::null())
         .stdout(Stdio::piped())
-        .stderr(Stdio::inherit())
+        .stderr(Stdio::piped())
         .spawn()
         .unwrap_or_else(|e| {
             eprintln!("harness error: cannot spawn worker: {e}");
             std::process::exit(2);
         });
     let stdout = child.stdout.take().unwrap();
+    // Forward the worker's stderr, minus the runtime's own noise about aborts that the parent
+    // already accounts for (and proptest's note about its shrink budget).
+    if let Some(stderr) = child.stderr.take() {
+        std::thread::spawn(move || {
+            for line in BufReader::new(stderr).lines() {
+                let Ok(line) = line else { break };
+                let noise = line.trim().is_empty()
+                    || line.contains("has overflowed its stack")
+                    || line.contains("fatal runtime error: stack overflow")
+                    || line.starts_with("proptest: Aborting shrinking");
+                if !noise {
+                    eprintln!("{line}");
+                }
+            }
+        });
+    }
     let child = Arc::new(Mutex::new(child));
     let child2 = child.clone();
     std::thread::spawn(move || {
